@@ -72,14 +72,13 @@ def _raw_literal_is_exact(string: str, delimiter: str) -> bool:
 def _multiline_literal_is_exact(string: str, indent: int, delimiter: str) -> bool:
     """
     Whether the multi line form is read back exactly: the reader removes the indentation that all lines have in
-    common and drops a last line that is blank (which at indent 0 is the last line of the string itself).
+    common.
     """
     lines = string.split("\n")
     return (
         delimiter not in string
         and not any(c in string for c in _LINE_BREAKS if c != "\n")
         and any(not line.startswith(" ") for line in lines)
-        and (indent > 0 or lines[-1].strip(" ") != "")
     )
 
 
